@@ -346,7 +346,11 @@ type Excl func(goPath string) bool
 
 type sform struct {
 	normal bool
-	excl   Excl
+	// embedNorm: only two identifications of the normal form - nil ≡ pointer to an
+	// all-zero message for nullable embedded pointers, and nil ≡ empty for slices,
+	// maps and byte strings ("empty for slices and maps" in C05); everything else exact
+	embedNorm bool
+	excl      Excl
 }
 
 // CanonS renders a struct value exactly (nil and empty distinguished).
@@ -383,13 +387,19 @@ func (f sform) render(sb *strings.Builder, v reflect.Value, goPath string, embed
 	switch v.Kind() {
 	case reflect.Ptr:
 		if v.IsNil() {
-			if f.normal && embeddedPtr {
+			if (f.normal || f.embedNorm) && embeddedPtr {
 				// nil nullable-embedded pointer ≡ pointer to an all-zero message
 				sb.WriteString("&")
 				f.render(sb, reflect.Zero(v.Type().Elem()), goPath, false)
 				return
 			}
 			sb.WriteString("nil")
+			return
+		}
+		if f.embedNorm && embeddedPtr && (sform{normal: true}).isNormZero(v.Elem(), goPath) {
+			// pointer to an all-zero embedded message: rendered like nil
+			sb.WriteString("&")
+			f.render(sb, reflect.Zero(v.Type().Elem()), goPath, false)
 			return
 		}
 		sb.WriteString("&")
@@ -443,14 +453,14 @@ func (f sform) render(sb *strings.Builder, v reflect.Value, goPath string, embed
 		sb.WriteString("}")
 	case reflect.Slice:
 		if v.Type().Elem().Kind() == reflect.Uint8 {
-			if v.IsNil() && !f.normal {
+			if v.IsNil() && !f.normal && !f.embedNorm {
 				sb.WriteString("bnil")
 				return
 			}
 			fmt.Fprintf(sb, "b%q", v.Bytes())
 			return
 		}
-		if v.IsNil() && !f.normal {
+		if v.IsNil() && !f.normal && !f.embedNorm {
 			sb.WriteString("[nil]")
 			return
 		}
@@ -461,7 +471,7 @@ func (f sform) render(sb *strings.Builder, v reflect.Value, goPath string, embed
 		}
 		sb.WriteString("]")
 	case reflect.Map:
-		if v.IsNil() && !f.normal {
+		if v.IsNil() && !f.normal && !f.embedNorm {
 			sb.WriteString("map[nil]")
 			return
 		}
